@@ -62,6 +62,18 @@ def tree_depth(Cx):
     return 0
 
 
+FILLS = {'int1': lambda: univ.Integer(1), 'int0': lambda: univ.Integer(0), 'octs-empty': lambda: univ.OctetString(b''),
+         'false': lambda: univ.Boolean(False), 'null': lambda: univ.Null(''), 'octs-x': lambda: univ.OctetString(b'x'),
+         'bits000': lambda: univ.BitString('000')}
+
+
+def materialise(domain, v):
+    """Candidate as handed to the constraint: record candidates name their component values by token."""
+    if domain == 'rec':
+        return dict((k, FILLS[t]()) for k, t in v.items())
+    return v
+
+
 def candidates(rng, domain, Cx):
     if domain == 'int':
         out = set()
@@ -76,9 +88,13 @@ def candidates(rng, domain, Cx):
                     out.add('a' * n)
                     out.add(''.join(rng.choice('abcxyz012q') for _ in range(n)))
         return sorted(out)
+    # present components carry every kind of value, falsy ones included: presence is about the key, not the value
     out = []
     for mask in range(8):
-        out.append(dict((n, 1) for i, n in enumerate('pqr') if mask >> i & 1))
+        for fill in sorted(FILLS):
+            out.append(dict((n, fill) for i, n in enumerate('pqr') if mask >> i & 1))
+            if not mask:
+                break
     return out
 
 
@@ -97,7 +113,7 @@ def check_denotation(res, rng):
         res.see('denotation-evaluations')
         want = RC.admits(Cx, v)
         try:
-            pc(v)
+            pc(materialise(domain, v))
             got = True
         except error.PyAsn1Error:
             # (the class actually raised is pyasn1.type.error.ValueConstraintError, a sibling of the documented
@@ -329,13 +345,14 @@ def check_constructed(res, rng):
             namedtype.NamedType('a', univ.Integer()), namedtype.OptionalNamedType('b', univ.OctetString()))).subtype(
             subtypeSpec=constraint.WithComponentsConstraint(
                 ('b', constraint.ComponentPresentConstraint() if want == 'present' else constraint.ComponentAbsentConstraint())))
-        for has_b in (False, True):
+        for has_b in (False, True, b'', b'\x00'):
             case = ('c14-con', 'seq', want, has_b)
             res.case(U.case_hash(case), True)
             v = typ.clone()
             v['a'] = 1
-            if has_b:
-                v['b'] = b'x'
+            if has_b is not False:
+                v['b'] = b'x' if has_b is True else has_b
+            has_b = has_b is not False
             inside = (want == 'present') == has_b
             try:
                 der_encoder.encode(v)
@@ -464,7 +481,7 @@ def replay(case):
         pc = RC.to_pyasn1(Cx)
         want = RC.admits(Cx, v)
         try:
-            pc(v)
+            pc(materialise(domain, v))
             got = True
         except error.PyAsn1Error:
             got = False
